@@ -39,7 +39,7 @@ ASSUMPTIONS = [
 ]
 BUDGET = {
     "quick": dict(cases=1000, shards=4, timeout=1800),
-    "thorough": dict(cases=5000, shards=16, timeout=5400),
+    "thorough": dict(cases=3000, shards=16, timeout=5400),
 }
 SMALL = ["small_ragged", "small_repeats", "small_alphabet1", "small_tie_costs", "small_hyp_longer",
          "small_unequal_costs"]
@@ -49,12 +49,12 @@ LOSS_CLASSES = ["ocd_uniform", "ocd_ragged", "ocd_repeats", "ocd_hyp_longer", "o
 CLASSES = OC_CLASSES + LOSS_CLASSES + ["zero_dim_eos"]
 FLOORS = {
     "quick": {
-        "events": {"optimal_completion": 2500, "hard_optimal_completion_distillation_loss": 800,
+        "events": {"optimal_completion": 2000, "hard_optimal_completion_distillation_loss": 700,
                    "assert:targets-exact": 12000, "assert:targets-distinct": 12000,
                    "assert:padding-only-after": 12000, "assert:past-end-padding": 3000,
                    "assert:targets-definitional": 10000, "assert:oracle-cross": 10000,
                    "assert:loss-none-value": 1200, "assert:loss-sum-value": 150,
-                   "assert:loss-mean-uniform": 40, "assert:loss-mean-ragged": 100},
+                   "assert:loss-mean-uniform": 30, "assert:loss-mean-ragged": 100},
         "classes": dict({c: 70 for c in OC_CLASSES}, **{c: 70 for c in LOSS_CLASSES}),
         "stats": {"prefixes_with_several_targets": 800, "prefixes_without_target": 3000,
                   "target_token_repeated_in_ref": 4000, "hyp_longer_than_ref_pairs": 2000,
@@ -492,6 +492,10 @@ PYTEST_FILES = ["tests/test_string.py"]
 
 
 def hook_case(module, args, kwargs, output):
+    import torch
+
+    if torch.jit.is_tracing() or torch.jit.is_scripting():
+        return None  # shapes are traced values there; the eager calls of the same tests are observed
     name = type(module).__name__
     if name == "OptimalCompletion":
         ref, hyp = args[0], args[1]
@@ -519,7 +523,7 @@ def hook_case(module, args, kwargs, output):
         bf = bool(module.batch_first)
         if not bf:
             ref, hyp, logits = ref.t(), hyp.t(), logits.transpose(0, 1)
-        N, H, V = logits.shape
+        N, H, V = (int(x) for x in logits.shape)
         if N == 0 or H == 0 or ref.shape[1] == 0 or tuple(hyp.shape) != (N, H):
             return None
         return {
